@@ -9,7 +9,9 @@ use std::os::unix::ffi::OsStringExt;
 struct EA { id: String, short: Option<char>, vshorts: Vec<char>, long: Option<String>, vlongs: Vec<String>, hlongs: Vec<String>, kind: u8, // 0 flag 1 option 2 positional
     num: Option<(usize, Option<usize>)>, allow_hyphen: bool, hide: bool, pvs: Option<Vec<(String, bool)>>, delim: Option<char> }
 #[derive(Clone, Debug)]
-struct EC { name: String, valiases: Vec<String>, haliases: Vec<String>, hide: bool, args: Vec<EA>, subs: Vec<EC> }
+struct EC { name: String, valiases: Vec<String>, haliases: Vec<String>, hide: bool, args: Vec<EA>, subs: Vec<EC>,
+    /// declare the positionals in reverse index order (`.index(2)` before `.index(1)`)
+    swap_pos: bool }
 
 fn gen_ec(rng: &mut Rng, depth: usize, idx: &mut usize, name: String) -> EC {
     let mut shorts: Vec<char> = "abcdefgijkmnopqrstuwxyz".chars().collect();
@@ -45,7 +47,8 @@ fn gen_ec(rng: &mut Rng, depth: usize, idx: &mut usize, name: String) -> EC {
         }
         s.hide = rng.chance(1, 6);
         s }).collect();
-    EC { name, valiases: vec![], haliases: vec![], hide: false, args, subs }
+    let swap_pos = rng.chance(1, 3);
+    EC { name, valiases: vec![], haliases: vec![], hide: false, args, subs, swap_pos }
 }
 
 fn build(c: &EC) -> Command {
@@ -54,6 +57,7 @@ fn build(c: &EC) -> Command {
     for a in &c.haliases { r = r.alias(a.clone()); }
     if c.hide { r = r.hide(true); }
     let mut pos = 0;
+    let mut built: Vec<(bool, Arg)> = vec![];
     for a in &c.args {
         let mut x = Arg::new(a.id.clone());
         if let Some(s) = a.short { x = x.short(s); }
@@ -67,8 +71,10 @@ fn build(c: &EC) -> Command {
         if a.hide { x = x.hide(true); }
         if let Some(p) = &a.pvs { x = x.value_parser(p.iter().map(|(n, h)| PossibleValue::new(n.clone()).hide(*h)).collect::<Vec<_>>()); }
         if let Some(d) = a.delim { x = x.value_delimiter(d); }
-        r = r.arg(x);
+        built.push((a.kind == 2, x));
     }
+    if c.swap_pos { if let Some(k) = built.iter().position(|(p, _)| *p) { let first = built.remove(k); built.push(first); } }
+    for (_, x) in built { r = r.arg(x); }
     for s in &c.subs { r = r.subcommand(build(s)); }
     r
 }
@@ -118,7 +124,8 @@ fn real_complete(c: &EC, argv: &[Vec<u8>], idx: usize) -> String {
 }
 
 /// a well-formed prefix: (words, level reached)
-fn gen_prefix<'a>(rng: &mut Rng, root: &'a EC) -> (Vec<String>, &'a EC) {
+/// the third component: is a multi-valued positional open at the cursor (engine state `Pos`)?
+fn gen_prefix<'a>(rng: &mut Rng, root: &'a EC) -> (Vec<String>, &'a EC, bool, bool) {
     let mut words = vec![root.name.clone()];
     let mut cur = root;
     for _ in 0..rng.below(5) {
@@ -150,7 +157,18 @@ fn gen_prefix<'a>(rng: &mut Rng, root: &'a EC) -> (Vec<String>, &'a EC) {
             }
         }
     }
-    (words, cur)
+    // values for the positionals of the level reached, as the last words before the cursor: the first positional takes
+    // one word (state `ValueDone`, second positional next); a word for a multi-valued second positional leaves it open
+    let mut pos_state = false;
+    // the last positional that received a word takes hyphen values: the PARSER then reads every later `--long` as a value
+    let mut after_hyphen_pos = false;
+    let ps: Vec<&EA> = cur.args.iter().filter(|a| a.kind == 2).collect();
+    if !ps.is_empty() && rng.chance(1, 3) {
+        let word = |a: &EA, k: usize| a.pvs.as_ref().map(|p| p[0].0.clone()).unwrap_or(format!("pw{k}"));
+        words.push(word(ps[0], 1)); after_hyphen_pos = ps[0].allow_hyphen;
+        if ps.len() > 1 && rng.chance(1, 2) { words.push(word(ps[1], 2)); pos_state = ps[1].num.is_some(); after_hyphen_pos = ps[1].allow_hyphen; }
+    }
+    (words, cur, pos_state, after_hyphen_pos)
 }
 
 pub fn run(o: &Opts) -> Report {
@@ -167,7 +185,8 @@ pub fn run(o: &Opts) -> Report {
         let enc = enc.join(" ");
         // (A) well-formed prefixes
         for _ in 0..(if o.thorough() { 12 } else { 8 }) {
-            let (mut words, level) = gen_prefix(&mut rng, &root);
+            let (mut words, level, pos_state, after_hyphen_pos) = gen_prefix(&mut rng, &root);
+            if pos_state { rep.count("wellformed_cases_in_open_positional"); }
             let mut pool: Vec<String> = vec!["".into(), "-".into(), "--".into(), "--o".into(), "--op".into(), "s".into(), "su".into(), "zz".into(), "--zz".into()];
             for a in &level.args { if let Some(l) = &a.long { pool.push(format!("--{}", &l[..l.len() / 2])); pool.push(format!("--{l}")); } if a.kind == 0 { if let Some(s) = a.short { pool.push(format!("-{s}")); } }
                 // a cluster that ends in a value-taking short (primary or visible alias): what follows is its value
@@ -229,9 +248,14 @@ pub fn run(o: &Opts) -> Report {
                 if !(is_long || is_short || is_sub) { rep.oracle_fail("candidate-names-nothing-of-the-level", &key, &format!("candidate {v:?} is not an option, alias or subcommand of level {}", level.name)); continue; }
                 // accepted as such by the real parser
                 let mut line: Vec<String> = words[..cursor].to_vec(); line.push(v.clone());
-                let r = std::panic::catch_unwind(|| build(&root).ignore_errors(false).try_get_matches_from(line.clone()).err().map(|e| e.kind()));
-                if let Ok(Some(k)) = r { if matches!(k, clap::error::ErrorKind::UnknownArgument | clap::error::ErrorKind::InvalidSubcommand) && !(is_short && v.len() > 2) {
-                    rep.oracle_fail("candidate-rejected-by-parser", &key, &format!("candidate {v:?}: parser says {k:?} for {line:?}")); } }
+                // the rejection must be ABOUT the candidate (an earlier word of the line may be what the parser objects to,
+                // e.g. `-yv` read as a hyphen value of the current positional instead of option `-y` with value `v`)
+                let r = std::panic::catch_unwind(|| build(&root).ignore_errors(false).try_get_matches_from(line.clone()).err().map(|e| {
+                    let named = [clap::error::ContextKind::InvalidArg, clap::error::ContextKind::InvalidSubcommand].iter().filter_map(|c| e.get(*c)).any(|cv| match cv { clap::error::ContextValue::String(x) => x == v, _ => false });
+                    (e.kind(), named) }));
+                if let Ok(Some((k, named))) = r { if named && matches!(k, clap::error::ErrorKind::UnknownArgument | clap::error::ErrorKind::InvalidSubcommand) && !(is_short && v.len() > 2) {
+                    let class = if after_hyphen_pos && v.starts_with("--") { "candidate-rejected-by-parser:long-option-after-hyphen-value-positional" } else { "candidate-rejected-by-parser" };
+                    rep.oracle_fail(class, &key, &format!("candidate {v:?}: parser says {k:?} for {line:?}")); } }
             }
             // completeness and the hidden rule (only when the word cannot be an option value: no `=`)
             if !w.contains('=') && !value_cluster {
@@ -245,7 +269,7 @@ pub fn run(o: &Opts) -> Report {
                         rep.oracle_fail("visible-option-not-offered", &key, &format!("{} has spelling(s) {sp:?} extending {w:?} but no candidate names it: {cands:?}", a.id));
                     }
                 }
-                if !w.starts_with('-') {
+                if !w.starts_with('-') && !pos_state {
                     for s in level.subs.iter().filter(|s| !s.hide) {
                         let sp: Vec<&String> = std::iter::once(&s.name).chain(s.valiases.iter()).collect();
                         let all: Vec<&String> = sp.iter().cloned().chain(s.haliases.iter()).collect();
